@@ -6,15 +6,15 @@ namespace c02
 void register_wchar(bool th)
 {
   int const maxn = th ? 4 : 2;
-  std::vector<int> const sk_quick{c02::SK_EPSILON, c02::SK_SPACE};
-  std::vector<int> const sk_all{c02::SK_EPSILON, c02::SK_SPACE, c02::SK_CS_SPACE, c02::SK_LIT_SPACE, c02::SK_REP_LIT, c02::SK_SEQ_LIT_LIT};
+  std::vector<int> const sk_quick{c02::SK_EPSILON, c02::SK_SPACE, c02::SK_CS_SPACE, c02::SK_REP_SEQ};
+  std::vector<int> const sk_all{c02::SK_EPSILON, c02::SK_SPACE, c02::SK_CS_SPACE, c02::SK_LIT_SPACE, c02::SK_REP_LIT, c02::SK_SEQ_LIT_LIT, c02::SK_REP_SEQ, c02::SK_SEQ_CS_LIT, c02::SK_REP_CS};
   for (int n = 1; n <= maxn; ++n)
   {
     std::size_t const parts = n <= 2 ? 1 : (n == 3 ? 8 : 32);
     for (std::size_t p = 0; p < parts; ++p)
       vrt::shard("wchar/nodes" + std::to_string(n) + "/" + std::to_string(p), [=] {
         auto const by = c02::all_by_size(n);
-        c02::run_block<wchar_t>("parse<wchar_t>", by[static_cast<std::size_t>(n)], p, parts, th ? sk_all : sk_quick, th ? 5 : 4, th ? 4 : 3);
+        c02::run_block<wchar_t>("parse<wchar_t>", by[static_cast<std::size_t>(n)], p, parts, (th || n <= 1) ? sk_all : sk_quick, th ? 5 : 4, th ? 4 : 3);
       }, 120);
   }
 }
